@@ -238,8 +238,8 @@ func tail(path string, n int) string {
 		}
 		return string(data)
 	}
-	if len(data) > n {
-		data = data[len(data)-n:]
+	if len(data) > 2*n {
+		return string(data[:n]) + "\n...[middle of the log omitted]...\n" + string(data[len(data)-n:])
 	}
 	return string(data)
 }
